@@ -285,6 +285,8 @@ def systematic(thorough=True):
                           comp(pidx("o2"), [1])]),
         ("oracle-names", [dict(k="secret_oracle", n=2, secret=2), mk("bv", 0), mk("oraclize", 0), mk("bv", 0),
                           dict(k="secret_oracle", n=2, secret=1), mk("bv", 4)]),
+        ("oracle-names", [comp(pidx("oracle", 0)), comp(pidx("o3"), [0]), mk("oraclize", 1), mk("truth_table", 1),
+                          mk("grover_e", 1)]),
         ("params", [comp(par), dict(k="bind", ref=0, params={"p": True}), dict(k="bind", ref=0, params={"p": False}),
                     mk("grover", 1), dict(k="bind", ref=0, params={"p": True}), comp(par, callable_=True),
                     dict(k="bind", ref=5, params={"p": True})]),
@@ -295,6 +297,12 @@ def systematic(thorough=True):
         for b in algs:
             H.append(("pair-%s-%s" % (a, b), [comp(pidx("oracle", 1)), mk(a, 0), mk(b, 0), mk("export_qiskit", 2), mk("decompile", 0)]))
     return H
+
+
+# names the qlasskit DSL itself gives a meaning to: a CALL of a user function with such a name is
+# translated as the builtin, so renaming it (the twin oracle) would change the program's meaning;
+# the generator therefore never makes the library generate a call to them (oraclize / Grover(qf, x))
+DSL_BUILTINS = {"len", "min", "max", "sum", "all", "any", "ord", "chr", "int", "float", "abs", "range", "print"}
 
 
 def random_history(rng, n):
@@ -329,6 +337,8 @@ def random_history(rng, n):
             c = rng.choice(CONSUMERS + ["grover", "grover_e", "oraclize", "dj"])
             live = [j for j, k in enumerate(kinds) if k in ("qf", "alg")]
             ref = rng.choice(qfs) if rng.random() < 0.9 else rng.choice(live)
+            if c in ("oraclize", "grover_e") and pristine_name(ops, ref) in DSL_BUILTINS:
+                c = "simon"
             ops.append(mk(c, ref, rng))
             kinds.append("qf" if c == "oraclize" else "alg" if c in ("grover", "grover_e", "dj", "simon", "bv") else None)
     return ops
@@ -778,7 +788,7 @@ def run(ctx: Ctx) -> Result:
         sysh = systematic(ctx.thorough)
         hists = [ops for _, ops in sysh]
         labels = [l for l, _ in sysh]
-        n_rand = 300 if ctx.thorough else 80
+        n_rand = 500 if ctx.thorough else 80
         max_len = 25 if ctx.thorough else 8
         for k in range(n_rand):
             n = ctx.rng.randint(3, max_len)
